@@ -20,6 +20,18 @@ func (i *interpreter) fresh(w uint8, k types.BasicKind) *sym {
 	return &sym{t, k}
 }
 
+// freshEnv creates a symbolic value on behalf of an environment stub (random source, clock):
+// it is solver-quantified like any other input but is not part of the replay vector, because
+// the native run draws it from the real environment.
+func (i *interpreter) freshEnv(w uint8, k types.BasicKind) *sym {
+	s := i.fresh(w, k)
+	if i.p.envVars == nil {
+		i.p.envVars = map[string]bool{}
+	}
+	i.p.envVars[s.t.name] = true
+	return s
+}
+
 func boolTerm(i *interpreter, v value) *Term { return i.term(v, types.Bool) }
 
 func asStr(v value) string {
